@@ -117,7 +117,7 @@ spec fn after_resume(c: Command, s: RunState) -> Status {
     match c {
         Command::Continue => Status::Continue,
         // `step`: only a call is stepped over (the call itself is about to run: depth 1); anything else is ONE instruction
-        Command::StepOver => if is_call_spec(s.mem[s.pc as int]) { Status::StepOver { return_addr: add16(s.pc, 1), depth: 1 } } else { Status::WaitForAction },
+        Command::StepOver => if is_call_spec(s.mem[s.pc as int]) { Status::StepOver { return_addr: add16(s.pc, 1), depth: 1, by_jump: true } } else { Status::WaitForAction },
         Command::StepInto { count } => if count >= 2 { Status::StepInto { count: (count - 2) as u16 } } else { Status::WaitForAction },
         Command::StepOut => if sig_spec(s.mem[s.pc as int]) == Some(SignificantInstr::Return) { Status::WaitForAction } else { Status::Finish },
         _ => Status::WaitForAction,
@@ -128,7 +128,7 @@ spec fn is_resuming(c: Command) -> bool { c is Continue || c is StepOver || c is
 spec fn resume_status(c: Command, s: RunState) -> Status {
     match c {
         Command::Continue => Status::Continue,
-        Command::StepOver => if is_call_spec(s.mem[s.pc as int]) { Status::StepOver { return_addr: add16(s.pc, 1), depth: 0 } } else { Status::StepInto { count: 0 } },
+        Command::StepOver => if is_call_spec(s.mem[s.pc as int]) { Status::StepOver { return_addr: add16(s.pc, 1), depth: 0, by_jump: false } } else { Status::StepInto { count: 0 } },
         Command::StepInto { count } => Status::StepInto { count: (count - 1) as u16 },
         Command::StepOut => Status::Finish,
         _ => Status::WaitForAction,
@@ -136,12 +136,23 @@ spec fn resume_status(c: Command, s: RunState) -> Status {
 }
 /// next_action consumed at least one command between a and b
 spec fn na_consumed(a: Debugger, b: Debugger) -> bool { remaining(b.command_reader) < remaining(a.command_reader) }
-/// C10: the stepped-over subroutine is complete when control is at the following address AND every call made since has
-/// returned (a recursive call reaches that address earlier, one activation too deep)
-spec fn stepover_reached(p: Status, s: RunState) -> bool { p matches Status::StepOver { return_addr, depth } && s.pc == return_addr && depth == 0 }
-/// call depth after the instruction `w` that is about to execute
-spec fn depth_after(depth: u16, w: u16) -> u16 {
-    if is_call_spec(w) { if depth == 0xFFFF { depth } else { (depth + 1) as u16 } }
-    else if sig_spec(w) == Some(SignificantInstr::Return) { if depth == 0 { depth } else { (depth - 1) as u16 } }
-    else { depth }
+/// C10 `step` over a call: the stepped call instruction (at return_addr - 1) may be executed again by deeper activations
+/// (recursion through the same call site) — `depth` counts its open invocations; an invocation ends when control is
+/// TRANSFERRED to the following address (by RET, RETS, JMP through any register, or a call — not by falling through or
+/// branching there, which a skipped conditional call in a deeper activation does). The step is complete when the last open
+/// invocation ends. (A callee's other calls and returns do not matter, nor how it returns.)
+spec fn jumpish(w: u16) -> bool { w >> 12 == 0xCu16 || is_call_spec(w) || sig_spec(w) == Some(SignificantInstr::Return) }
+spec fn sat_dec(d: u64) -> u64 { if d == 0 { 0 } else { (d - 1) as u64 } }
+spec fn sat_inc(d: u64) -> u64 { if d == 0xFFFF_FFFF_FFFF_FFFF { d } else { (d + 1) as u64 } }
+spec fn stepover_arrived(p: Status, s: RunState) -> bool { p matches Status::StepOver { return_addr, depth, by_jump } && s.pc == return_addr && by_jump }
+spec fn stepover_reached(p: Status, s: RunState) -> bool {
+    p matches Status::StepOver { return_addr, depth, by_jump } && s.pc == return_addr && by_jump && sat_dec(depth) == 0
+}
+/// the StepOver status handed back with Proceed when the step is not complete: one invocation closed if control was just
+/// transferred to the return address, one opened if the stepped call instruction is about to run again
+spec fn stepover_next(return_addr: u16, depth: u64, by_jump: bool, s: RunState) -> Status {
+    let w = s.mem[s.pc as int];
+    let d1 = if s.pc == return_addr && by_jump { sat_dec(depth) } else { depth };
+    let d2 = if s.pc == add16(return_addr, 0xFFFF) && is_call_spec(w) { sat_inc(d1) } else { d1 };
+    Status::StepOver { return_addr, depth: d2, by_jump: jumpish(w) }
 }
